@@ -128,3 +128,40 @@ func HintChain(sig []byte, row int, v byte, seed uint64) []byte {
 	}
 	return o
 }
+
+// KeyEvents classifies a reference key by the arithmetic corner cases its generation passes through: a coefficient of
+// t = A*s1 + s2 that is exactly 0 or q-1, a sum A*s1 + s2 that wraps around 0 or q (the freeze after the addition
+// matters), a coefficient exactly on the rounding tie of the split into (t1, t0), the largest t1.
+func KeyEvents(k *dilref.Keys) []string {
+	seen := map[string]bool{}
+	for i := range k.T {
+		for j := range k.T[i] {
+			t, u, s := k.T[i][j], k.AS1[i][j], dilref.Centre(k.S2[i][j])
+			switch t {
+			case 0:
+				seen["t-zero"] = true
+			case dilref.Q - 1:
+				seen["t-q-minus-1"] = true
+			}
+			if u+s < 0 {
+				seen["sum-wraps-below-zero"] = true
+			}
+			if u+s >= dilref.Q {
+				seen["sum-wraps-at-q"] = true
+			}
+			if t%8192 == 4096 {
+				seen["t-rounding-tie"] = true
+			}
+			if k.T1[i][j] == 1023 {
+				seen["t1-largest"] = true
+			}
+		}
+	}
+	var out []string
+	for _, e := range []string{"t-zero", "t-q-minus-1", "sum-wraps-below-zero", "sum-wraps-at-q", "t-rounding-tie", "t1-largest"} {
+		if seen[e] {
+			out = append(out, e)
+		}
+	}
+	return out
+}
